@@ -490,6 +490,19 @@ func (r *Rng) HdrName(t int) string {
 		if r.P(30) {
 			return "X" + r.Alnum(1, 11) // (a random 1-letter name could be a compact form)
 		}
+		if r.P(12) { // every character of the RFC 3261 token set may occur in a header name (also the ones the parameter
+			// parser does not allow, the back-quote among them); a name made of one non-letter byte is legal too
+			const nameChars = "abcXYZ019-.!%*_+`'~"
+			n := 1 + r.N(6)
+			b := make([]byte, n)
+			for i := range b {
+				b[i] = nameChars[r.N(len(nameChars))]
+			}
+			if n == 1 && (b[0]|0x20 >= 'a' && b[0]|0x20 <= 'z') {
+				b[0] = "0123456789-.!%*_+`'~"[r.N(20)] // not a letter: a letter could be a compact form
+			}
+			return string(b)
+		}
 		return r.ReCase(otherNames[r.N(len(otherNames))])
 	}
 	ns := hdrNames[t]
